@@ -150,7 +150,15 @@ def check_skip(run, rule_exh="R07.1", rule_tag="R07.3"):
         shared = [ir.enum_ref(l[2])[1] for l in labels if l[0] == "case" and ir.enum_ref(l[2])]
         calls = [callee_name(c) for s in stmts_ for c in ir.calls_in(s) if (c.get("callee") or {}).get("cls") == DEC]
         has_int = "read_int" in calls or "read_unsigned" in calls
-        has_skip = "skip_item" in calls
+        # the content is skipped either by a nested skip_item() or by scheduling exactly one more item on the
+        # function's own work list (push_back/emplace_back of a level holding the constant 1)
+        scheduled = []
+        for s_ in stmts_:
+            for c in ir.calls_in(s_):
+                if callee_name(c) in ("push_back", "emplace_back") and path(c.get("recv")) and path(c.get("recv"))[0].startswith("l:"):
+                    consts = [const_value(x) for x in ir.walk(c) if x.get("k") == "Lit" and not isinstance(x.get("v"), bool)]
+                    scheduled.append(consts)
+        has_skip = "skip_item" in calls or (len(scheduled) == 1 and scheduled[0][:1] == [1])
         ok = has_int and has_skip and shared == ["TAG"]
         why = "tag number consumed, then the enclosed item is skipped"
         if not has_skip:
